@@ -46,6 +46,8 @@ def c18(ctx: Ctx):
         "and non-empty; at most 6 per type), recursive values unfolded to depth 2; 64-bit int",
         "reflect cannot create named or method-carrying types: recursion and component names come from the 14 declared types only; "
         "json:\",string\", yaml tags, arrays, interfaces, non-string map keys, json.RawMessage are outside the universe",
+        "the type-name generator option sets (tng*) use one fixed function (prefix \"T_\", checked by TLC against what the harness "
+        "installed) and are enumerated over the types that reach a declared struct type",
         "component export (CreateComponentSchemas) is enumerated over types whose component-forming structs are declared ones "
         "(anonymous structs all get the component name \"\": listed finding with its own witness)",
     ]
